@@ -130,6 +130,10 @@ def build(c):
         ec = L['ErrorCalculatorSurplusCell']()
     else:
         raise ValueError(st)
+    if c.get('ec'):
+        # another of the error calculators the library ships for this strategy
+        import sparseSpACE.ErrorCalculator as _E
+        ec = getattr(_E, c['ec'])()
     return {'combi': combi, 'op': op, 'f': f, 'ec': ec, 'a': a, 'b': b, 'ref': ref, 'grid': grid, 'norm': norm, 'c': c}
 
 
